@@ -21,22 +21,39 @@ type Term struct {
 	id   int
 }
 
+type tkey struct {
+	op   string
+	w    int
+	name string
+	c    string
+	n    int
+	a    [3]int
+}
+
 var (
-	termTab = map[string]*Term{}
+	termTab = map[tkey]*Term{}
 	termSeq = 0
 )
 
 func mk(op string, w int, name string, c *big.Int, args ...*Term) *Term {
-	var sb strings.Builder
-	sb.WriteString(op)
-	fmt.Fprintf(&sb, ":%d:%s:", w, name)
+	k := tkey{op: op, w: w, name: name, n: len(args)}
 	if c != nil {
-		sb.WriteString(c.String())
+		if c.IsInt64() {
+			k.a[2] = int(c.Int64())
+			k.c = "i"
+		} else {
+			k.c = c.String()
+		}
 	}
-	for _, a := range args {
-		fmt.Fprintf(&sb, ",%d", a.id)
+	if len(args) > 3 {
+		panic("mk: too many args")
 	}
-	k := sb.String()
+	for i, a := range args {
+		if c != nil && i == 2 {
+			panic("mk: const with 3 args")
+		}
+		k.a[i] = a.id
+	}
 	if t, ok := termTab[k]; ok {
 		return t
 	}
